@@ -99,14 +99,18 @@ class Ctx:
         self.reports.append(Report(rule, full, where, msg, detail))
 
     def floor(self, what, count, minimum):
-        """Fail closed when a rule sees fewer instances than were confirmed by hand."""
+        """Fail closed when a rule sees far fewer instances than were counted on the audited tree (vacuity guard).
+        `minimum` is the audited count; the alarm threshold is 70% of it, so that a refactoring which merges two
+        duplicated sites into one (a helper extracted, two identical closures unified) is not reported."""
+        audited = minimum
+        minimum = max(1, (audited * 7 + 9) // 10)
         if count < minimum:
             self.report(
                 f"FLOOR:{what}",
                 "(whole tree)",
                 f"rule instance count fell below the audited floor: {what}: {count} < {minimum}; "
                 "the rule may be passing vacuously - re-audit",
-                {"count": count, "floor": minimum},
+                {"count": count, "floor": minimum, "audited": audited},
             )
 
     def anchor_lost(self, anchor, why):
